@@ -60,16 +60,15 @@ class Deseasonalizer(_SeriesToSeriesTransformer):
 
     def _align_seasonal(self, y):
         """Align seasonal components with y's time index"""
-        shift = (
-            -_get_duration(
-                y.index[0],
-                self._y_index[0],
-                coerce_to_int=True,
-                unit=_get_freq(self._y_index),
-            )
-            % self.sp
-        )
-        return np.resize(np.roll(self.seasonal_, shift=shift), y.shape[0])
+        # number of steps from the start of the training series to every time
+        # point of y: y need not be contiguous (e.g. forecasts for a horizon
+        # with gaps), so each time point gets the component of its own season
+        unit = _get_freq(self._y_index)
+        steps = [
+            _get_duration(time_point, self._y_index[0], coerce_to_int=True, unit=unit)
+            for time_point in y.index
+        ]
+        return np.asarray(self.seasonal_)[np.asarray(steps, dtype=int) % self.sp]
 
     def fit(self, Z, X=None):
         """Fit to data.
